@@ -125,7 +125,7 @@ class Machine:
         """returns (outcome, info); outcome in {'ok', 'rejected', 'skipped'}"""
         k = o["op"]
         if self.existing_only and k in ("populate", "denseref", "assign", "positionRef", "append", "extend",
-                                        "setitem", "fiber_arith", "updateCoords"):
+                                        "setitem", "fiber_arith", "updateCoords", "insert"):
             return ("skipped", {})
         fn = getattr(self, "op_" + k)
         res = fn(o)
@@ -300,6 +300,19 @@ class Machine:
     def op_insert(self, o):
         """the deprecated but public coordinate mutators: insertOrLookup (any coordinate) and insert (absent
         coordinates only -- what insert does with a stored coordinate is not documented)"""
+        if o["mode"] // 2 % 3 == 2 and self.owned and self.d >= 2:
+            # insertOrLookup(c) without a value on an interior fiber of a tensor: the element it creates is a
+            # sub-fiber (absent coordinates only: what the method registers for a STORED coordinate of an interior
+            # fiber is a quirk of this deprecated method that no listed property speaks about)
+            f, lvl = self.target(o["path"], max_level=self.d - 2)
+            c = o["sel"][0] % self.shape[lvl]
+            if c in f.coords or lvl >= self.d - 1:
+                return ("skipped", {})
+            got = f.insertOrLookup(c)
+            if c not in f.coords or got is not f.payloads[f.coords.index(c)] or not isinstance(got, Fiber):
+                raise Violation("insertOrLookup", f"insertOrLookup({c}) on an interior fiber did not return the sub-fiber "
+                                f"stored at {c}")
+            return ("ok", {"present": False, "interior": True})
         f, lvl = self.target(o["path"] + [0, 0, 0])
         if lvl < self.d - 1:
             return ("skipped", {})
